@@ -134,7 +134,7 @@ def _mentions_local(e, lid):
     return any(sx.kind(x) == 'local' and x[2] == lid for x in sx.walk(e))
 
 
-def t_err(rep, rule, prog, f, callees, exceptions=None, config=''):
+def t_err(rep, rule, prog, f, callees, exceptions=None, config='', ignore=None):
     """T-ERR: every call in f to one of `callees` (functions that can return a
     negative error) has its result checked: used directly in a branch
     condition or return, or assigned to a local that is compared / returned on
@@ -155,6 +155,8 @@ def t_err(rep, rule, prog, f, callees, exceptions=None, config=''):
             where = '%s:%s' % (f.file, sx.line(n))
             inst = '%s%s: result of %s #%d' % (config, f.name, cn, k)
             exc = exceptions.get((f.name, cn, k)) or exceptions.get((f.name, cn, '*'))
+            if exc is None and ignore is not None:
+                exc = ignore(f, n)
             how = _result_use(cf, f, b, i, s, n)
             if how[0] == 'checked':
                 rep.holds(rule, inst, where, how[1])
